@@ -19,9 +19,11 @@ def main():
     args = sys.argv[1:]
     round2 = "--round2" in args
     round3 = "--round3" in args
-    args = [a for a in args if a not in ("--round2", "--round3")]
+    round4 = "--round4" in args
+    round5 = "--round5" in args     # properties that had no round 4: /tmp/mut5, filed as _m7/_m8 as well
+    args = [a for a in args if a not in ("--round2", "--round3", "--round4", "--round5")]
     for pid in args:
-        out = Path(f"/tmp/mut3/out_{pid}" if round3 else (f"/tmp/mut2/out_{pid}" if round2 else f"/tmp/mut/out_{pid}"))
+        out = Path(f"/tmp/mut5/out_{pid}" if round5 else f"/tmp/mut4/out_{pid}" if round4 else f"/tmp/mut3/out_{pid}" if round3 else (f"/tmp/mut2/out_{pid}" if round2 else f"/tmp/mut/out_{pid}"))
         for k in (1, 2, 3):
             diff = out / f"mutant{k}.diff"
             if not diff.exists():
@@ -40,7 +42,7 @@ def main():
                                  demo_mutant_exit_confirmed=rc_mut, suite_tail_with_mutant=t_out.strip().splitlines()[-2:],
                                  what_i_ran=[f"git worktree add {wt} HEAD", f"demo on clean -> {rc_clean}", "git apply patch.diff",
                                              f"demo on mutant -> {rc_mut}", "pytest full suite (3 baseline-failing tests deselected)"]))
-                dst = Path(f"/verif/seeded/{pid}_m{k + 4 if round3 else (k + 2 if round2 else k)}")
+                dst = Path(f"/verif/seeded/{pid}_m{k + 6 if (round4 or round5) else k + 4 if round3 else (k + 2 if round2 else k)}")
                 dst.mkdir(parents=True, exist_ok=True)
                 shutil.copy(diff, dst / "patch.diff")
                 shutil.copy(out / f"demo{k}.py", dst / "demo.py")
